@@ -8,8 +8,11 @@ import ast
 
 from pyvc.registry import ComponentResult, Finding, component
 
-SVG_PY = "/repo/src/picosvg/svg.py"
-CLI_PY = "/repo/src/picosvg/picosvg.py"
+import os as _os
+
+_REPO = _os.environ.get("PYVC_REPO", "/repo")
+SVG_PY = _REPO + "/src/picosvg/svg.py"
+CLI_PY = _REPO + "/src/picosvg/picosvg.py"
 
 STRIP = ("remove_nonsvg_content", "remove_processing_instructions", "remove_anonymous_symbols", "remove_title_meta_desc")
 SHAPE_REMOVING = ("remove_unpainted_shapes", "clip_to_viewbox")
@@ -259,7 +262,7 @@ def callsite_obligations():
     A.ob("(gradient.gradientTransform,transform)" in ltr_args(tg), "callsite:_transformed_gradient:gradientTransform_then_ctm", "the gradient's own transform applies first, the shape's CTM second")
     A.ob(".as_user_space_units(shape_bbox,inplace=True)" in _src(tg) and 'self._new_id(gradient.id+"_%d")' in _src(tg).replace("'", '"'), "callsite:_transformed_gradient:bbox_units_resolved_and_fresh_id",
          "a cloned gradient must be converted to user space with the shape's bounding box and get a fresh id")
-    ttree = ast.parse(open("/repo/src/picosvg/svg_types.py").read())
+    ttree = ast.parse(open(_REPO + "/src/picosvg/svg_types.py").read())
     grad = next(n for n in ttree.body if isinstance(n, ast.ClassDef) and n.name == "_SVGGradient")
     us = next(n for n in grad.body if isinstance(n, ast.FunctionDef) and n.name == "as_user_space_units")
     A.ob("(self.gradientTransform,Affine2D.rect_to_rect(_UNIT_RECT,shape_bbox))" in ltr_args(us), "callsite:as_user_space_units:gradientTransform_then_bbox_mapping",
